@@ -192,6 +192,7 @@ def run_case(desc, V):
     if kind == 'inv':
         ctx = sym.cur()
         n_before = len(ctx.denominators) if V.symbolic else 0
+        f_before = ctx.float_lifts if V.symbolic else 0
         try:
             xi = x.inv()
         except ZeroDivisionError:
@@ -217,8 +218,18 @@ def run_case(desc, V):
                     claims.append(Eq('identically-zero-denominator', 1, 1))
                     return claims
         one = {0: 1}
-        claims += mv_eq_claims('x*inv(x)=1', x * xi, one)
+        prod = x * xi
+        claims += mv_eq_claims('x*inv(x)=1', prod, one)
         claims += mv_eq_claims('inv(x)*x=1', xi * x, one)
+        if alg.d <= 5:
+            # "exactly over exact coefficient types in up to five dimensions": the generated closed form must
+            # not bring floating-point constants into the arithmetic.  Symbolic pass: a float constant met a
+            # coefficient; concrete pass (Fraction operands): a float came out.
+            inexact = (ctx.float_lifts > f_before) if V.symbolic else \
+                any(isinstance(v, float) for v in list(xi.values()) + list(prod.values()))
+            if inexact:
+                claims.append(Fail('inexact-inverse', 'x.inv() in d <= 5 mixes floating-point constants into exact (Fraction) coefficients: '
+                                   'x*x.inv() is 1 only to rounding', fkey='inv|inexact-in-closed-form-dimension'))
         if V.symbolic and desc.get('exists') and small and dens:
             f, _ = _exists_inverse_formula(km, X, V, 'r')
             claims.append(Unsat('zero-denominator-but-invertible(runtime)', z3.And(z3.Or(*[dd == 0 for dd in dens]), f),
